@@ -91,8 +91,9 @@ type Path struct {
 	loopCount  map[*frame]map[*ssa.BasicBlock]int
 	expectPanic string
 
-	tokens   []*encToken
-	seals    []*sealRec
+	toks     []*encTokenRec
+	tokSeq   int
+	decodeArbOff bool
 	notes    []string
 	depth    int
 	pendingEscape interface{}
@@ -101,11 +102,7 @@ type Path struct {
 	optShuffle bool
 	encLen   int
 	aeadTamper bool
-	decodeArb bool
 }
-
-type encToken struct{}
-type sealRec struct{}
 
 func (p *Path) fresh(prefix string, w int) *Term {
 	p.varSeq++
